@@ -16,6 +16,7 @@ import (
 
 	"github.com/EliCDavis/polyform/modeling"
 	"github.com/EliCDavis/polyform/modeling/primitives"
+	"github.com/EliCDavis/polyform/nodes"
 	"github.com/EliCDavis/vector/vector2"
 	"github.com/EliCDavis/vector/vector3"
 )
@@ -32,10 +33,29 @@ type c18Mesh struct {
 	nrm      []vector3.Float64 // nil when the mesh carries no normals
 }
 
-func c18Build(f func() modeling.Mesh) c18Mesh {
+// a constructed mesh kept alive for the history replay (c18ReplayHistory)
+type c18Kept struct {
+	cs   c18Case
+	mesh modeling.Mesh
+}
+
+var c18History []c18Kept
+
+func c18Build(f func() modeling.Mesh) (c18Mesh, *modeling.Mesh) {
+	var mesh modeling.Mesh
+	if Guard(func() string {
+		mesh = f()
+		return "ok"
+	}) == "panic" {
+		return c18Mesh{panicked: true}, nil
+	}
+	return c18Read(mesh), &mesh
+}
+
+// c18Read reads indices / positions / normals out of a mesh NOW (used right after construction and again, later, on kept meshes)
+func c18Read(m modeling.Mesh) c18Mesh {
 	var r c18Mesh
 	if Guard(func() string {
-		m := f()
 		ix := m.Indices()
 		r.idx = make([]int, ix.Len())
 		for i := range r.idx {
@@ -148,7 +168,27 @@ func c18Join(parts ...string) string {
 }
 
 func (c *Ctx) c18Emit(cs c18Case) {
-	m := c18Build(cs.build)
+	m, kept := c18Build(cs.build)
+	if kept != nil && len(m.pos) <= 1200 && len(c18History) < 400 && c.count%7 == 0 {
+		// keep every few small meshes alive; they are re-read and re-checked after all later constructor calls
+		c18History = append(c18History, c18Kept{cs: cs, mesh: *kept})
+	}
+	c.c18EmitMesh(cs, m)
+}
+
+// c18ReplayHistory re-reads every kept mesh (built earlier, before many other constructor calls with other parameters)
+// and emits all its lines again: a constructor that shares state between calls (pooled buffers, caches) shows up as a
+// model mismatch / oracle failure on an EARLIER result
+func (c *Ctx) c18ReplayHistory() {
+	h := c18History
+	c18History = nil
+	for _, k := range h {
+		c.Note("history.replayed")
+		c.c18EmitMesh(k.cs, c18Read(k.mesh))
+	}
+}
+
+func (c *Ctx) c18EmitMesh(cs c18Case, m c18Mesh) {
 	kp := c18Join(cs.kind, cs.params)
 	sc := Fs(cs.scalars...)
 	if m.panicked {
@@ -305,9 +345,115 @@ func (c *Ctx) c18Defaults() {
 		build: func() modeling.Mesh { return primitives.UnitCube() }})
 }
 
+// sizes just past / at / before powers of two (caches, pooled buffers and chunked code paths change behaviour there):
+// one long direction, the other minimal, so the meshes stay moderate; they take the large-mesh path (tris, nv, closed,
+// outward, volume)
+func (c *Ctx) c18Pow2Edges(thorough bool) {
+	sizes := []int{1024, 1025}
+	if thorough {
+		sizes = []int{255, 256, 257, 511, 513, 1023, 1024, 1025, 2047, 2049, 4095, 4097}
+	} else {
+		// quick: the 1024 boundary always, one more boundary per seed
+		extra := []int{257, 513, 1023, 2049, 4097}
+		sizes = append(sizes, extra[c.Rng.Intn(len(extra))])
+	}
+	for _, n := range sizes {
+		c.Note("pow2-edge")
+		r := c.c18Len()
+		mk := func(kind string, rows, cols int, withNrm bool, build func() modeling.Mesh) {
+			c.c18Emit(c18Case{kind: kind, params: strconv.Itoa(rows) + " " + strconv.Itoa(cols), scalars: []float64{r}, size: r,
+				admit: true, withPos: true, withNrm: withNrm, solid: true, build: build})
+		}
+		mk("sphere", 3, n, true, func() modeling.Mesh { return primitives.UVSphere(r, 3, n) })
+		mk("hemi", 3, n, false, func() modeling.Mesh { return primitives.Hemisphere{Radius: r}.UV(3, n) })
+		mk("sphereu", 2, n, false, func() modeling.Mesh { return primitives.UVSphereUnwelded(r, 2, n) })
+		if thorough || n == 1025 {
+			mk("sphere", n, 3, true, func() modeling.Mesh { return primitives.UVSphere(r, n, 3) })
+			mk("hemi", n, 3, false, func() modeling.Mesh { return primitives.Hemisphere{Radius: r}.UV(n, 3) })
+		}
+		c.c18Cyl(n, false, false, n%2 == 1, c.c18Len(), c.c18Len())
+	}
+}
+
+func c18Int(v int) nodes.NodeOutput[int]           { return nodes.Value(v).Out() }
+func c18Float(v float64) nodes.NodeOutput[float64] { return nodes.Value(v).Out() }
+func c18Bool(v bool) nodes.NodeOutput[bool]        { return nodes.Value(v).Out() }
+
+// the node wrappers with CONNECTED inputs (tiny graphs: nodes.Value -> wrapper), at the minimum accepted values, below
+// them and at ordinary values; the node's mesh is compared with the model of the constructor called on the parameters
+// as the wrapper documents them (UvSphereNode clamps rows to >= 2 and columns to >= 3; the others pass them through)
+func (c *Ctx) c18Nodes() {
+	max := func(a, b int) int {
+		if a > b {
+			return a
+		}
+		return b
+	}
+	for _, rows := range []int{-3, 0, 1, 2, 3, 4, 7} {
+		for _, cols := range []int{-1, 2, 3, 4, 9} {
+			for w := 0; w < 3; w++ {
+				c.Note("node.uvsphere")
+				radius := []float64{0.5, 2, 0.25}[(rows+cols+w+9)%3]
+				data := primitives.UvSphereNodeData{Rows: c18Int(rows), Columns: c18Int(cols)}
+				if radius != 0.5 {
+					data.Radius = c18Float(radius)
+				}
+				weld := true
+				if w == 1 {
+					data.Weld = c18Bool(true)
+				} else if w == 2 {
+					data.Weld = c18Bool(false)
+					weld = false
+				}
+				kind := "sphere"
+				if !weld {
+					kind = "sphereu"
+				}
+				cr, cc := max(rows, 2), max(cols, 3)
+				c.c18Emit(c18Case{kind: kind, params: strconv.Itoa(cr) + " " + strconv.Itoa(cc), scalars: []float64{radius}, size: radius,
+					admit: true, withPos: true, withNrm: weld, solid: true,
+					build: func() modeling.Mesh { return (&primitives.UvSphereNode{Data: data}).Value() }})
+			}
+		}
+	}
+	for _, rows := range []int{1, 2, 3, 6} {
+		for _, cols := range []int{2, 3, 4, 8} {
+			c.Note("node.hemisphere")
+			radius := 0.75
+			data := primitives.HemisphereNodeData{Rows: c18Int(rows), Columns: c18Int(cols), Radius: c18Float(radius), Capped: c18Bool(rows%2 == 0)}
+			c.c18Emit(c18Case{kind: "hemi", params: strconv.Itoa(rows) + " " + strconv.Itoa(cols), scalars: []float64{radius}, size: radius,
+				admit: rows >= 2 && cols >= 3, withPos: true, solid: true,
+				build: func() modeling.Mesh { m, _ := data.Process(); return m }})
+		}
+	}
+	for _, sides := range []int{2, 3, 4, 9} {
+		for caps := 0; caps < 4; caps++ {
+			c.Note("node.cylinder")
+			top, bottom := caps&1 == 0, caps&2 == 0
+			radius, height := 0.3, 1.7
+			data := primitives.CylinderNodeData{Sides: c18Int(sides), Height: c18Float(height), Radius: c18Float(radius), Top: c18Bool(top), Bottom: c18Bool(bottom)}
+			both := top && bottom
+			c.c18Emit(c18Case{kind: "cyl", params: strconv.Itoa(sides) + " " + c18B01(!top) + " " + c18B01(!bottom),
+				scalars: []float64{radius, height}, size: height, admit: sides >= 3 || (!top && !bottom),
+				withPos: both, withNrm: both, solid: both && sides >= 3,
+				build: func() modeling.Mesh { m, _ := data.Process(); return m }})
+		}
+	}
+	for _, d := range [][3]float64{{1, 1, 1}, {2, 0.5, 3}} {
+		c.Note("node.cube")
+		data := primitives.CubeNodeData{Width: c18Float(d[0]), Height: c18Float(d[1]), Depth: c18Float(d[2])}
+		c.c18Emit(c18Case{kind: "cubeq", scalars: []float64{d[0], d[1], d[2]}, size: 3, admit: true, withPos: true, withNrm: true, solid: true,
+			build: func() modeling.Mesh { return (&primitives.CubeNode{Data: data}).Value() }})
+	}
+}
+
 func runC18(c *Ctx) {
 	thorough := c.Tier == "thorough"
+	c18History = nil
+	defer c.c18ReplayHistory()
 	c.c18Defaults()
+	c.c18Nodes()
+	c.c18Pow2Edges(thorough)
 	lim := 10
 	if thorough {
 		lim = 24
